@@ -221,6 +221,25 @@ def correspondence(ctx):
         c = np.array([rng.uniform(-2, 2) for _ in range(n)])
         ops.append('C18 wtype ' + ';'.join(f2b(x) for x in c)); impl.append(guarded(lambda: S.Wtype(c)))
     run(ops, impl, 1e-15, 'f')
+    ops, impl = [], []
+    for c0 in [[1, 2, 2], [1, 1, 1], [3, 4], [1, 0, 1, 1], [2, -1, 2, 0, 4]]:
+        for conv in (lambda c: np.array(c, dtype=np.int64), lambda c: np.array([abs(x) > 0 for x in c]), lambda c: list(c), lambda c: np.array(c, dtype=np.float32), lambda c: np.array(c, dtype=np.complex128)):
+            c = conv(c0)
+            ops.append('C18 wtype ' + ';'.join(f2b(float(np.real(x))) for x in np.asarray(c)))
+            impl.append(guarded(lambda: np.real(np.asarray(S.Wtype(c), dtype=np.complex128))))
+    run(ops, impl, 2e-7, 'f', key='wtype-dtypes')
+    # measures at the exact end points for d = 2..20 (the grids above already contain them for a few d)
+    ops, impl = [], []
+    for d in range(2, 21):
+        lo = -1 / (d * d - 1)
+        for a in [-1.0, 1.0, 1 / d]:
+            ops.append(f'C18 wgme {d} {f2b(a)}'); impl.append(guarded(lambda: np.float64(S.get_Werner_GME(d, a))))
+            ops.append(f'C18 weof {d} {f2b(a)}'); impl.append(guarded(lambda: np.float64(S.get_Werner_eof(d, a))))
+        for a in [lo, 1.0, 1 / (d + 1)]:
+            ops.append(f'C18 igme {d} {f2b(a)}'); impl.append(guarded(lambda: np.float64(S.get_Isotropic_GME(d, a))))
+            ops.append(f'C18 ieof {d} {f2b(a)}'); impl.append(guarded(lambda: np.float64(S.get_Isotropic_eof(d, a))))
+    with np.errstate(all='ignore'):
+        run(ops, impl, 1e-13, 'f', key='measures-endpoints')
 
     # ---- closed-form measures: branch layer + formulas ------------------------------------------------------------------
     ops, impl = [], []
@@ -451,6 +470,94 @@ def probe(ctx):
         v = ket_check('Wtype-norm', lambda: S.Wtype(c), dict(op='Wtype', coeff=[str(x) for x in c]), 2 ** n)
         if v is not None and np.abs(v[2 ** np.arange(n)] * np.linalg.norm(c) - c).max() > 1e-12:
             ctx.fail('Wtype-coeff', 'Wtype(coeff) does not carry coeff/|coeff| on the weight-one states', dict(op='Wtype', coeff=[str(x) for x in c]))
+
+    # array-like arguments of every dtype: int, bool, float32, float64, complex, list / tuple
+    base = [[1, 2, 2], [1, 1, 1, 1], [3, 4], [1, 0, 2, 0, 2], [2], [1, 1, 1, 1, 1, 1, 1]]
+    variants = [('int64', lambda c: np.array(c, dtype=np.int64)), ('int8', lambda c: np.array(c, dtype=np.int8)), ('uint8', lambda c: np.array([abs(x) for x in c], dtype=np.uint8)),
+                ('bool', lambda c: np.array(c, dtype=bool)), ('float32', lambda c: np.array(c, dtype=np.float32)), ('float64', lambda c: np.array(c, dtype=np.float64)),
+                ('complex128', lambda c: np.array(c, dtype=np.complex128)), ('complex64', lambda c: np.array(c, dtype=np.complex64)), ('list', lambda c: list(c)), ('tuple', lambda c: tuple(c))]
+    for c0 in base + [[rng.randint(-5, 5) or 1 for _ in range(rng.randint(1, 6))] for _ in range(4)]:
+        for tag, conv in variants:
+            c = conv(c0)
+            ref = np.asarray(c, dtype=np.complex128 if 'complex' in tag else np.float64)
+            if not np.any(ref != 0):
+                continue
+            n = len(c0)
+            tol = 1e-6 if tag in ('float32', 'complex64') else 1e-12
+            rep = dict(op='Wtype', coeff=[int(x) for x in c0], dtype=tag)
+            v = guarded(lambda: np.asarray(S.Wtype(c)))
+            want = np.zeros(2 ** n, dtype=np.complex128); want[2 ** np.arange(n)] = ref / np.linalg.norm(ref)
+            if isinstance(v, str) or v.shape != (2 ** n,) or abs(np.vdot(v, v).real - 1) > tol or np.abs(v - want).max() > tol:
+                ctx.fail('Wtype-dtype', f'Wtype({tag} {c0}) is not the normalised ket coeff/|coeff| on the weight-one states: ' + (v if isinstance(v, str) else f'dtype={v.dtype}, norm^2={np.vdot(v, v).real}, got {v[2 ** np.arange(n)].tolist()}'), rep)
+            else:
+                ctx.probe_ok(('wtype-dtype', tag, tuple(c0)))
+    for n in range(1, 9):
+        for tag, conv in variants:
+            v = guarded(lambda: np.asarray(S.Wtype(conv([1] * n))))
+            w = guarded(lambda: S.W(n))
+            if isinstance(v, str) or isinstance(w, str) or v.shape != w.shape or np.abs(v - w).max() > 1e-6:
+                ctx.fail('Wtype-dtype', f'Wtype(ones({n}, {tag})) != W({n}): ' + (v if isinstance(v, str) else f'dtype={v.dtype}, norm^2={np.vdot(v, v).real}'), dict(op='Wtype-vs-W', n=n, dtype=tag))
+            else:
+                ctx.probe_ok(('wtype-w', tag, n))
+    # integer / numpy-scalar / float32 size and parameter arguments of the other constructors
+    for tag, conv in [('np.int64', np.int64), ('np.int32', np.int32), ('float-valued int', float)]:
+        for name, f, g in [('W', lambda k: S.W(k), lambda: S.W(3)), ('GHZ', lambda k: S.GHZ(k), lambda: S.GHZ(3)),
+                           ('maximally_entangled_state', lambda k: S.maximally_entangled_state(k), lambda: S.maximally_entangled_state(3)),
+                           ('maximally_coherent_state', lambda k: S.maximally_coherent_state(k), lambda: S.maximally_coherent_state(3)),
+                           ('Dicke', lambda k: S.Dicke(k, conv(1)), lambda: S.Dicke(3, 1)), ('Bell', lambda k: S.Bell(k), lambda: S.Bell(3))]:
+            if tag == 'float-valued int' and name not in ('Dicke', 'Bell'):
+                continue      # sizes are documented as int
+            v, w = guarded(lambda: np.asarray(f(conv(3)))), guarded(g)
+            if isinstance(v, str) or v.shape != w.shape or np.abs(v - w).max() > 1e-15:
+                ctx.fail('constructor-int-types', f'{name}({tag}(3)) differs from {name}(3): ' + (v if isinstance(v, str) else 'values differ'), dict(op=name, argtype=tag))
+            else:
+                ctx.probe_ok(('inttype', name, tag))
+    for tag, conv in [('int', int), ('np.int64', np.int64), ('np.float32', np.float32), ('bool', bool)]:
+        for name, f, vals in [('Werner', S.Werner, [0, 1]), ('Isotropic', S.Isotropic, [0, 1]), ('get_bes2x4_Horodecki1997', lambda d, b: S.get_bes2x4_Horodecki1997(b), [0, 1]),
+                              ('get_bes3x3_Horodecki1997', lambda d, b: S.get_bes3x3_Horodecki1997(b), [0, 1]), ('get_2qutrit_Antoine2022', lambda d, q: S.get_2qutrit_Antoine2022(q), [0, 1])]:
+            for a in vals:
+                v, w = guarded(lambda: np.asarray(f(3, conv(a)), dtype=np.float64)), guarded(lambda: np.asarray(f(3, float(a))))
+                if isinstance(v, str) or isinstance(w, str) or v.shape != w.shape or np.abs(v - w).max() > 1e-7:
+                    ctx.fail('constructor-param-types', f'{name} with parameter {tag}({a}) differs from the float parameter: ' + (v if isinstance(v, str) else f'{np.abs(v - w).max()}'), dict(op=name, argtype=tag, value=a))
+                else:
+                    ctx.probe_ok(('paramtype', name, tag, a))
+    r = guarded(lambda: [numqi.entangle.load_upb('sixparam', conv([1, 2, 3, 1, 2, 3]), return_product=True, ignore_warning=True) for conv in (list, tuple, np.array, lambda c: np.array(c, dtype=np.float32))])
+    if isinstance(r, str) or any(np.abs(x.conj() @ x.T - np.eye(5)).max() > 1e-6 for x in r):
+        ctx.fail('upb-sixparam-types', f'load_upb(sixparam) with integer list / tuple / int array / float32 parameters is not orthonormal: {r if isinstance(r, str) else ""}', dict(op='load_upb', kind='sixparam', args=[1, 2, 3, 1, 2, 3]))
+    else:
+        ctx.probe_ok('sixparam-types')
+
+    # closed-form measures at the exact end points, at the separability threshold and +-1 ulp, d = 2..20, scalars and arrays
+    with np.errstate(all='ignore'):
+        for d in range(2, 21):
+            for fam, lo, thr, fs in [('Werner', -1.0, 1 / d, dict(ree=S.get_Werner_ree, eof=S.get_Werner_eof, gme=S.get_Werner_GME)),
+                                     ('Isotropic', -1 / (d * d - 1), 1 / (d + 1), dict(ree=S.get_Isotropic_ree, eof=S.get_Isotropic_eof, gme=S.get_Isotropic_GME))]:
+                pts = [lo, float(np.nextafter(lo, 2)), (lo + thr) / 2, 0.0, thr - 1e-3, float(np.nextafter(thr, -2)), thr, float(np.nextafter(thr, 2)), thr + 1e-3, (thr + 1) / 2, float(np.nextafter(1, -2)), 1.0]
+                for mname, f in fs.items():
+                    sc = []
+                    for a in pts:
+                        v = guarded(lambda: float(f(d, a)))
+                        sc.append(v)
+                        rep = dict(op=f.__name__, d=d, alpha=float(a))
+                        if isinstance(v, str) or not np.isfinite(v):
+                            key = 'eof-nan-above-threshold' if (mname == 'eof' and thr < a <= thr + 1e-9) else 'measures-endpoints'
+                            ctx.fail(key, f'{f.__name__}({d}, {a!r}) = {v}: not finite (alpha in the documented range [{lo}, 1], threshold {thr})', rep)
+                        elif v < -1e-12:
+                            ctx.fail('measures-endpoints', f'{f.__name__}({d}, {a!r}) = {v} < 0', rep)
+                        elif a <= thr - 1e-6 and v != 0:
+                            ctx.fail('measures-endpoints', f'{f.__name__}({d}, {a!r}) = {v}: not exactly 0 on the separable range (alpha <= {thr})', rep)
+                        elif a <= thr and abs(v) > 1e-12:
+                            ctx.fail('measures-endpoints', f'{f.__name__}({d}, {a!r}) = {v}: not 0 at the separability threshold', rep)
+                        else:
+                            ctx.probe_ok(('endpt', f.__name__, d, float(a)))
+                    if mname != 'ree':     # the REE routines are scalar-only (documented float argument)
+                        for tag, arr in [('float64', np.array(pts)), ('2d', np.array(pts).reshape(3, 4)), ('endpoints-only', np.array([lo, 1.0])), ('int', np.array([0, 1]))]:
+                            va = guarded(lambda: np.asarray(f(d, arr), dtype=np.float64))
+                            want = np.array([float(f(d, float(a))) if not isinstance(guarded(lambda: float(f(d, float(a)))), str) else np.nan for a in np.asarray(arr, dtype=np.float64).reshape(-1)])
+                            if isinstance(va, str) or va.shape != np.asarray(arr).shape or not np.allclose(va.reshape(-1), want, rtol=0, atol=1e-14, equal_nan=True):
+                                ctx.fail('measures-array-scalar', f'{f.__name__}({d}, {tag} array) differs from the scalar evaluations: ' + (va if isinstance(va, str) else f'{va.reshape(-1).tolist()} vs {want.tolist()}'), dict(op=f.__name__, d=d, alpha=[float(x) for x in np.asarray(arr, dtype=np.float64).reshape(-1)], argtype=tag))
+                            else:
+                                ctx.probe_ok(('arr', f.__name__, d, tag))
 
     # density matrices over the whole documented ranges, end points included
     dense = 12 if ctx.quick() else 200
